@@ -26,6 +26,7 @@ import (
 	"github.com/hashicorp/hcl/v2"
 	"github.com/hashicorp/hcl/v2/hclsyntax"
 	"github.com/zclconf/go-cty/cty"
+	"golang.org/x/text/unicode/norm"
 	"hclverif/hv"
 )
 
@@ -255,7 +256,8 @@ func labelOK(label string) func(string) bool {
 			return false
 		}
 		v, vd := e.Value(nil)
-		return !vd.HasErrors() && v.Type() == cty.String && v.IsKnown() && !v.IsNull() && v.AsString() == label
+		// a cty string is NFC-normalised, Block.Labels is not: compare modulo NFC (`"e\u0323\u0301"` is the literal of that label)
+		return !vd.HasErrors() && v.Type() == cty.String && v.IsKnown() && !v.IsNull() && v.AsString() == norm.NFC.String(label)
 	}
 }
 
@@ -528,15 +530,30 @@ func genInput(r *hv.Rng, rep *hv.Report) input {
 			rep.Histogram["feat:"+k] += v
 		}
 	}
+	addPos := func(feat map[string]int) {
+		for k, v := range feat {
+			rep.Histogram["posgen:"+k] += v
+		}
+		rep.Histogram["posgen:cases"]++
+	}
 	switch x := r.Intn(100); {
-	case x < 28:
+	case x < 14:
 		s, feat := hv.GenConfig(r)
 		addFeat(feat)
 		in = input{s, modeConfig, "config"}
+	case x < 31:
+		// the "positions" stream (posgen.go): column != byte offset almost everywhere, ranges the parser adjusts
+		s, feat := genPosConfig(r)
+		addPos(feat)
+		in = input{s, modeConfig, "positions-config"}
 	case x < 36:
 		s, feat := hv.GenExprText(r)
 		addFeat(feat)
 		in = input{s, modeExpr, "expr"}
+	case x < 40:
+		s, feat := genPosExpr(r)
+		addPos(feat)
+		in = input{s, modeExpr, "positions-expr"}
 	case x < 50:
 		in = input{genTemplate(r, 0), modeTemplate, "template"}
 	case x < 70:
@@ -553,7 +570,7 @@ func genInput(r *hv.Rng, rep *hv.Report) input {
 		in = input{genSoup(r), modeTemplate, "soup-template"}
 	}
 	// occasionally lex a configuration as a template and vice versa
-	if r.Chance(0.04) {
+	if r.Chance(0.04) && !strings.HasPrefix(in.kind, "positions") {
 		in.mode = (in.mode + 1) % 3
 		in.kind += "-crossmode"
 	}
@@ -719,12 +736,14 @@ const perShard = 150
 
 func runC14(cfg *hv.RunCfg) error {
 	rep := hv.NewReport("C14", cfg.Seed)
-	rep.Rule = "inputs: hand corpus, then generated configurations / expressions / templates (hv.GenConfig, hv.GenExprText, local template generator), byte-level mutations of them (invalid UTF-8, multi-byte, combining, ZWJ and regional-indicator sequences, CR/LF mixtures, lone CR, nested templates and heredocs, unterminated strings/heredocs/comments, BOM, NUL, tabs) and fragment soups; LexConfig, LexExpression and LexTemplate; a random start position for half of the position cases; non-trivial = at least 3 tokens; distinct by SHA-256 of mode+input"
+	rep.Rule = "inputs: hand corpus, then generated configurations / expressions / templates (hv.GenConfig, hv.GenExprText, local template generator; the positions stream of posgen.go: valid configurations / expressions with multi-byte clusters before the constructs of a line, flush heredocs indented with multi-byte white space and tabs, strip markers next to multi-byte white space, legacy splat / index traversals, CRLF, BOM), byte-level mutations of them (invalid UTF-8, multi-byte, combining, ZWJ and regional-indicator sequences, CR/LF mixtures, lone CR, nested templates and heredocs, unterminated strings/heredocs/comments, BOM, NUL, tabs) and fragment soups; LexConfig, LexExpression and LexTemplate; a random start position for half of the position cases; non-trivial = at least 3 tokens; distinct by SHA-256 of mode+input"
 	r := hv.NewRng(cfg.Seed, 14)
 	imports := "From Coq Require Import String.\nFrom HclV Require Import Base.Prelude Lex.Scanner Lex.Positions Lex.HclLex Lex.LexCheck."
 	cfTok := &hv.CaseFile{Dir: cfg.Out, Name: "c14tok", Imports: imports, Ctype: "Z * string * list (Z * Z * Z)", Checker: "check_tok_cases"}
 	cfPos := &hv.CaseFile{Dir: cfg.Out, Name: "c14pos", Imports: imports, Ctype: "pcase", Checker: "check_pos_cases"}
-	cfPosAt := &hv.CaseFile{Dir: cfg.Out, Name: "c14posat", Imports: imports, Ctype: "pcase", Checker: "check_posat_cases"}
+	// c14posat: the token positions AND (second component) every position of a node range / diagnostic range of the
+	// error-free parse of the same input (start = InitialPos) whose column is defined: judged by pos_at in Coq
+	cfPosAt := &hv.CaseFile{Dir: cfg.Out, Name: "c14posat", Imports: imports, Ctype: "pcase * list pos", Checker: "check_posat_node_cases"}
 
 	var ins []input
 	if cfg.Replay != "" {
@@ -738,6 +757,9 @@ func runC14(cfg *hv.RunCfg) error {
 	} else {
 		for _, c := range c14Corpus {
 			ins = append(ins, input{c.src, c.mode, "corpus"})
+		}
+		for _, c := range posCorpus {
+			ins = append(ins, input{c, modeConfig, "corpus"})
 		}
 		if extra, err := filepath.Glob("/verif/corpus/C14/*"); err == nil {
 			for _, p := range extra {
@@ -778,7 +800,7 @@ func runC14(cfg *hv.RunCfg) error {
 		}
 		cfTok.Add(coqTokCase(in.mode, src, toks0))
 		cfPos.Add(posCase)
-		cfPosAt.Add(posCase)
+		var nodePoints []string // filled below; the c14posat case is added at the end of the iteration
 		rep.Idx(modeName[in.mode] + ":" + in.src)
 		rep.Count(modeName[in.mode]+":"+in.src, len(toks0) >= 3)
 		rep.Hist("kind:" + in.kind)
@@ -832,18 +854,28 @@ func runC14(cfg *hv.RunCfg) error {
 						okAll = false
 					}
 				}()
+				var rw *rangeWalker
 				if in.mode == modeConfig {
 					f, diags := hclsyntax.ParseConfig(src, "f", hcl.InitialPos)
 					if !diags.HasErrors() {
 						rep.Hist("parse:error-free-config")
 						fd.body(f.Body.(*hclsyntax.Body))
+						rw = nodeRangeOracle(src, toks0, f, diags, f.Body.(*hclsyntax.Body), nil)
 					}
 				} else {
 					e, diags := hclsyntax.ParseExpression(src, "f", hcl.InitialPos)
 					if !diags.HasErrors() {
 						rep.Hist("parse:error-free-expr")
 						fd.expr(e)
+						rw = nodeRangeOracle(src, toks0, e, diags, nil, e)
 					}
+				}
+				if rw != nil {
+					nodePoints = rw.coqPoints()
+					rw.report(rep, strings.HasPrefix(in.kind, "positions"))
+					fd.fails = append(fd.fails, rw.fails...)
+				} else if strings.HasPrefix(in.kind, "positions") {
+					rep.Hist("posgen-parse:has-errors")
 				}
 			}()
 			rep.Histogram["fidelity:structural-ranges-checked"] += fd.nStru
@@ -863,6 +895,7 @@ func runC14(cfg *hv.RunCfg) error {
 		if okAll {
 			rep.Hist("oracle-ok")
 		}
+		cfPosAt.Add("(" + posCase + ", " + hv.CoqList(nodePoints) + ")")
 	}
 
 	var names []string
@@ -876,7 +909,8 @@ func runC14(cfg *hv.RunCfg) error {
 	rep.CaseFiles = names
 	rep.Notes = append(rep.Notes,
 		"c14tok/c14pos/c14posat shards share one case numbering (case i of each family is input i of case_index)",
-		"c14posat_*.v is the property's position oracle evaluated in Coq (Go positions vs pos_at); c14pos_*.v ties emit_token_cl to token.go")
+		"c14posat_*.v is the property's position oracle evaluated in Coq (Go positions vs pos_at): token positions with the case's start position, and the Start/End of every node range, computed range and diagnostic range of the error-free parse (start = InitialPos) found by a reflective walk over the tree (noderanges.go); c14pos_*.v ties emit_token_cl to token.go",
+		"node-range:<Type.Field> = number of ranges judged per field; lines:* = lines of error-free cases with a node starting on them / with a node start whose column differs from its byte offset in the line")
 	return rep.Write(cfg.Out)
 }
 
